@@ -117,8 +117,13 @@ class Run:
         if idx < len(self.prefix):
             choice = self.prefix[idx]
         else:
-            ft = self.feasible([cond])
-            ff = self.feasible([z3.Not(cond)])
+            if getattr(self, 'in_merge', False):
+                # inside a merged (pure) evaluation every branch is kept: an infeasible one only contributes a
+                # dead arm to the ITE
+                ft = ff = True
+            else:
+                ft = self.feasible([cond])
+                ff = self.feasible([z3.Not(cond)])
             if ft and ff:
                 choice = True
                 self.alternatives.append(self.decisions + [False])
